@@ -572,7 +572,32 @@ def _g5(f, out):
 # --------------------------------------------------------------------------- G6
 
 
+def unguarded_next(fnode):
+    """next(<iterator>) with a single argument and outside a handler for StopIteration: raises
+    StopIteration when the iterator is empty.  Yields the call."""
+    for x in walk_fn(fnode):
+        if isinstance(x, ast.Call) and isinstance(x.func, ast.Name) and x.func.id == 'next' and len(x.args) == 1 \
+                and not x.keywords:
+            caught = False
+            for p_ in parents(x):
+                if isinstance(p_, ast.Try) and any(x is n_ for b in p_.body for n_ in ast.walk(b)) and any(
+                        h.type is None or any(nm in unparse(h.type) for nm in ('StopIteration', 'Exception'))
+                        for h in p_.handlers):
+                    caught = True
+            if not caught:
+                yield x
+
+
 def _g6(f, out):
+    for x in unguarded_next(f.node):
+        out.append(Finding('G6', 'REFUTED', f.mod, enclosing_stmt(x) or x, f.key,
+                           '%s has no default value and is not inside a handler for StopIteration: when the iterator '
+                           'yields nothing (an empty node list: input ending in an empty unclosed group) StopIteration '
+                           'escapes' % short(x, 60), '%s: %s' % (f.qual, short(x, 50))))
+    _g6_minmax(f, out)
+
+
+def _g6_minmax(f, out):
     for c in walk_fn(f.node):
         if isinstance(c, ast.Call) and isinstance(c.func, ast.Name) and c.func.id in ('max', 'min') \
                 and len(c.args) == 1 and kwarg(c, 'default') is None:
@@ -1438,3 +1463,31 @@ def _g9(f, out):
             out.append(Finding('G9', 'REFUTED', f.mod, where, f.key,
                                'position value %s tested by truthiness: position 0 is treated like '
                                '"no position"' % short(t), '%s: %s' % (f.qual, short(where, 70))))
+
+
+
+def swapped_arguments(mod):
+    """calls of a function / method defined in the same module where a positional argument is a
+    plain variable whose name is the name of ANOTHER positional parameter of the callee (and the
+    parameter at its own position has a different name): the classic swapped-arguments slip.
+    Yields (call, callee name, argument index, parameter index, name)."""
+    for q, f in mod.functions.items():
+        for c in iter_own(f):
+            if not isinstance(c, ast.Call) or not c.args:
+                continue
+            callee, skip = None, 0
+            if isinstance(c.func, ast.Name) and c.func.id in mod.functions and '.' not in c.func.id:
+                callee = mod.functions[c.func.id]
+            elif isinstance(c.func, ast.Attribute) and isinstance(c.func.value, ast.Name) and c.func.value.id == 'self' \
+                    and '.' in q and (q.rsplit('.', 1)[0] + '.' + c.func.attr) in mod.functions:
+                callee, skip = mod.functions[q.rsplit('.', 1)[0] + '.' + c.func.attr], 1
+            if callee is None or not isinstance(callee, ast.FunctionDef):
+                continue
+            params = [a.arg for a in callee.args.args][skip:]
+            for i, a in enumerate(c.args):
+                if isinstance(a, ast.Name) and a.id in params and i < len(params) and params[i] != a.id:
+                    j = params.index(a.id)
+                    # the variable standing in its own parameter's position is a swap only when
+                    # the displaced parameter's name is passed elsewhere positionally too
+                    yield c, callee.name, i, j, a.id
+                    break
